@@ -641,7 +641,8 @@ class Interp:
 
     def ev_Dict(self, node, st):
         if any(k is None for k in node.keys):
-            raise Unsupported('dict unpacking in display')
+            yield from self._dict_with_unpacking(node, st)
+            return
         for s, ks in self.ev_seq(node.keys, st):
             if isinstance(ks, Raised):
                 yield s, ks
@@ -654,6 +655,72 @@ class Interp:
                     if not isinstance(k, (str, int, bytes)):
                         raise Unsupported('dict display with symbolic key')
                 yield s2, s2.new_py('dict', dict(zip(ks, vs)))
+
+    def _dict_with_unpacking(self, node, st):
+        """{**a, k: v, **b}: entries in display order, later ones replace earlier ones (the position of a replaced key is kept, as in
+        CPython).  Unpacked operands must be dicts with concrete keys."""
+        from . import ops
+        key_nodes = [k for k in node.keys if k is not None]
+        for s, ks in self.ev_seq(key_nodes, st):
+            if isinstance(ks, Raised):
+                yield s, ks
+                continue
+            for s2, vs in self.ev_seq(node.values, s):
+                if isinstance(vs, Raised):
+                    yield s2, vs
+                    continue
+                out = {}
+                ki = iter(ks)
+                for kn, v in zip(node.keys, vs):
+                    if kn is None:
+                        v = ops.resolve(s2, v)
+                        if not (isinstance(v, PyRef) and v.kind == 'dict'):
+                            raise Unsupported('dict unpacking of a value that is not a concrete-keyed dict')
+                        out.update(self.deref(s2, v))
+                    else:
+                        k = next(ki)
+                        if not isinstance(k, (str, int, bytes)):
+                            raise Unsupported('dict display with symbolic key')
+                        out[k] = v
+                yield s2, s2.new_py('dict', out)
+
+    def ev_DictComp(self, node, st):
+        """{k: v for target in concrete-items}: keys must evaluate to concrete values"""
+        if len(node.generators) != 1 or node.generators[0].ifs:
+            raise Unsupported('dict comprehension shape')
+        gen = node.generators[0]
+        for s, itv in self.ev(gen.iter, st):
+            if isinstance(itv, Raised):
+                yield s, itv
+                continue
+            items = self.concrete_items(s, itv)
+            if items is None:
+                s.emit('opaque_comprehension', text=ast.unparse(node)[:120])
+                yield s, Unknown('comprehension:' + ast.unparse(node)[:60])
+                continue
+
+            def go(i, s, acc):
+                if i == len(items):
+                    yield s, s.new_py('dict', dict(acc))
+                    return
+                saved = s.cur
+                s.push_frame(saved)
+                self.assign_target(s, gen.target, items[i])
+                for s1, k in self.ev(node.key, s):
+                    if isinstance(k, Raised):
+                        s1.cur = saved
+                        yield s1, k
+                        continue
+                    if not isinstance(k, (str, int, bytes)):
+                        raise Unsupported('dict comprehension with symbolic key')
+                    for s2, v in self.ev(node.value, s1):
+                        s2.cur = saved
+                        if isinstance(v, Raised):
+                            yield s2, v
+                            continue
+                        yield from go(i + 1, s2, acc + [(k, v)])
+
+            yield from go(0, s, [])
 
     def ev_JoinedStr(self, node, st):
         parts = []
@@ -890,6 +957,10 @@ class Interp:
             unk = [a for a in args if isinstance(a, Unknown)]
             if unk:
                 from . import models
+                if f is models.BUILTINS.get('map') and len(args) == 2 and not isinstance(args[0], Unknown):
+                    # map(f, <unknown>): WHICH function is applied is known even when the items are not
+                    yield st, models.MapVal(args[0], args[1])
+                    return
                 if any(f is m for m in models.BUILTINS.values()):
                     # a builtin applied to unknown state (next(), len(), str(), ...): an unknown result
                     unk[0].note(self, st)
@@ -934,6 +1005,7 @@ class Interp:
                 vars_[p] = kwargs.pop(p)
             elif p in dparams:
                 vars_[p] = self.const_eval(defaults[dparams.index(p)], st, f.env)
+                self._shared_default(st, f, node, p)
             else:
                 raise Unsupported(f'missing arg {p} for {f.name}')
         for p, d in zip(a.kwonlyargs, a.kw_defaults):
@@ -941,6 +1013,7 @@ class Interp:
                 vars_[p.arg] = kwargs.pop(p.arg)
             elif d is not None:
                 vars_[p.arg] = self.const_eval(d, st, f.env)
+                self._shared_default(st, f, node, p.arg)
             else:
                 raise Unsupported(f'missing kwonly {p.arg} for {f.name}')
         if a.kwarg is not None:
@@ -971,6 +1044,20 @@ class Interp:
                     raise Unsupported('break/continue escaping function')
         finally:
             self.fn_stack.pop()
+
+    def _shared_default(self, st, f, node, param):
+        """Python builds a default value once, when the `def` runs: a mutable default that the body changes in place is state shared by
+        all calls that leave the parameter out.  The engine evaluates defaults per call, which is only faithful when that never happens."""
+        from . import source
+        if param in source.shared_mutable_defaults(node):
+            key = (f.name, param)
+            seen = self.__dict__.setdefault('_shared_default_seen', set())
+            if key in seen:
+                return
+            seen.add(key)
+            self.obligations.append(Obligation(
+                f'{self.unit_name}.default_argument_is_not_state_shared_between_calls[{f.name}.{param}]', list(st.pc), z3.BoolVal(False),
+                'top', {'function': f.name, 'parameter': param, 'line': getattr(node, 'lineno', None)}))
 
     def const_eval(self, node, st, env):
         saved = st.cur
@@ -1418,7 +1505,22 @@ class Interp:
             exc = out[1]
             yield from self.match_handlers(node.handlers, 0, s, exc)
 
-        for s, out in self.exec_block(node.body, st):
+        # which lookup failures the code itself expects in this body (syntactic): a subscript of state the sidecar has no model for
+        # may then fail with that exception (vf.ops.getitem)
+        caught = set()
+        for h in node.handlers:
+            ts = [h.type] if h.type is not None and not isinstance(h.type, ast.Tuple) else (h.type.elts if h.type is not None else [])
+            for t in ts:
+                caught.add(ast.unparse(t).split('.')[-1])
+        stack = self.__dict__.setdefault('try_catches', [])
+        stack.append(caught)
+
+        body_out = []
+        try:
+            body_out = list(self.exec_block(node.body, st))
+        finally:
+            stack.pop()
+        for s, out in body_out:
             for s2, out2 in after_handlers(s, out):
                 if not node.finalbody:
                     yield s2, out2
